@@ -68,7 +68,7 @@ CHECKS.update({
    note=TB + "Precondition: val < 2^n (assert in the source); n <= bits per word.",
    tech="static analysis: bit-level abstract interpretation with congruence partitioning on LLVM IR"),
  "C06": dict(engine="E-TABLE + dataflow", cat="other", ref="DESIGN.md 4/C06",
-   text="Four structural necessary conditions of the adaptive container's losslessness: header byte == reported type == dispatched type (SSA identity); encode and decode dispatch tables have equal case sets, each case calls the encoder/decoder of the same codec family, and every value the selector can return is an explicit case of both; every path of the selection decision tree to BITMAP establishes fitsInBitmapRange, isSorted, uniqueCount == count and count below the exact-count threshold; no length-taking sub-decoder receives a literal length; fitsInBitmapRange is only set when every value is below the bound under which the encoder's BITMAP arm stores values. Losslessness of each sub-codec for every array is NOT decided (C02's reason).",
+   text="Structural necessary conditions of the adaptive container's losslessness: header byte == reported type == dispatched type (SSA identity); encode and decode dispatch tables have equal case sets, each case calls the encoder/decoder of the same codec family, and every value the selector can return is an explicit case of both; every path of the selection decision tree to BITMAP establishes fitsInBitmapRange, isSorted, uniqueCount == count and count below the exact-count threshold; no length-taking sub-decoder receives a literal length; fitsInBitmapRange is only set when every value is below the bound under which the encoder's BITMAP arm stores values; (A6) the slot width of the PFOR arm is measured for a value strictly above the largest in-range offset, so that the all-ones exception marker is never an in-range value (or the encoder compares with the marker). Losslessness of each sub-codec for every array is NOT decided (C02's reason).",
    note=TB + "2 known findings (literal 1 MiB length for the DICT and BITMAP sub-decoders: the API has no input length).",
    tech="static analysis: SSA identity, switch-table and path-condition extraction on LLVM IR"),
  "C07": dict(engine="E-TABLE + E-RANGE", cat="other", ref="DESIGN.md 4/C07",
